@@ -268,6 +268,24 @@ impl World {
                 let r = tracked!(b.slice_ref(&FOREIGN[..]));
                 self.push(r.map(H::B))
             }
+            "ctb" => {
+                // Buf::copy_to_bytes on the handle itself (Bytes: split_to; BytesMut: split_to + freeze)
+                let (i, k) = (num(1)?, num(2)?);
+                let r = match self.hs.get_mut(i)?.as_mut()? {
+                    H::B(b) => tracked!(H::B(bytes::Buf::copy_to_bytes(b, k))),
+                    H::M(m) => tracked!(H::B(bytes::Buf::copy_to_bytes(m, k))),
+                    _ => return None,
+                };
+                self.push(r)
+            }
+            "putbytes" => {
+                let (i, b, k) = (num(1)?, num(2)?, num(3)?);
+                let m = match self.hs.get_mut(i)?.as_mut()? {
+                    H::M(m) => m,
+                    _ => return None,
+                };
+                tracked!(bytes::BufMut::put_bytes(m, b as u8, k)).map(|_| Out::Unit)
+            }
             "splitoff" | "splitto" => {
                 let (i, k) = (num(1)?, num(2)?);
                 let off = name == "splitoff";
@@ -618,6 +636,7 @@ fn ops_for(w: &World, i: usize, rng: &mut Rng, boundary: bool) -> Vec<String> {
                     v.push(format!("sliceinc {} {} {}", i, a, b));
                 }
                 v.push(format!("slicex {} {} {}", i, a, len));
+                v.push(format!("ctb {} {}", i, a));
             }
             for off in 0..=len.min(3) {
                 for l in 0..=(len - off).min(2) {
@@ -636,6 +655,13 @@ fn ops_for(w: &World, i: usize, rng: &mut Rng, boundary: bool) -> Vec<String> {
             v.push(format!("extend {} a1a2a3", i));
             v.push(format!("extend {} {}", i, hex(&vec![0xb7u8; cap - len + 1])));
             v.push(format!("extend {} {}", i, hex(&vec![0xb8u8; 40])));
+            for a in &args {
+                v.push(format!("ctb {} {}", i, a));
+                // (huge-but-valid sizes would make the allocator abort: only small or unrepresentable counts)
+                if *a <= cap + 70 || *a >= (1usize << 63) {
+                    v.push(format!("putbytes {} 7 {}", i, a));
+                }
+            }
             v.push(format!("extendit {} a1a2a3", i));
             v.push(format!("extendit {} {}", i, hex(&vec![0xb7u8; cap - len + 1])));
             v.push(format!("extendref {} {}", i, hex(&vec![0xb9u8; cap - len + 2])));
@@ -759,6 +785,9 @@ fn random_op(w: &World, rng: &mut Rng) -> String {
     }
     if o.starts_with("mfrom ") && rng.chance(1, 3) {
         return swap(&o, "mfrom ", "mcollect ");
+    }
+    if o.starts_with("splitto ") && rng.chance(1, 3) {
+        return swap(&o, "splitto ", "ctb ");
     }
     if o.starts_with("slice ") && rng.chance(1, 8) {
         return swap(&o, "slice ", "slicex ");
